@@ -2,9 +2,9 @@ package checks
 
 import (
 	"fmt"
-	"os"
 	"go/token"
 	"go/types"
+	"os"
 	"sort"
 	"strings"
 
@@ -45,16 +45,16 @@ type tdSite struct {
 }
 
 type transducer struct {
-	c     *Ctx
-	mode  tdMode
-	fn    *ssa.Function
-	a     *absint.Analyzer
-	data  *absint.Slice
-	em    *ssa.Phi
-	c7d   *ssa.Phi
-	c7e   *ssa.Phi
-	ph    *ssa.Phi
-	rule  string
+	c    *Ctx
+	mode tdMode
+	fn   *ssa.Function
+	a    *absint.Analyzer
+	data *absint.Slice
+	em   *ssa.Phi
+	c7d  *ssa.Phi
+	c7e  *ssa.Phi
+	ph   *ssa.Phi
+	rule string
 }
 
 func (t *transducer) site(ins ssa.Instruction, what string) *tdSite {
